@@ -489,6 +489,26 @@ MUTANTS = [
     ("C09-rw-proposes-for-all-tracked-keys", "liesel/goose/kernel.py",
      "        return self.model.extract_position(self.position_keys, model_state)\n",
      "        return self.model.extract_position(sorted(self.position_keys), model_state)\n"),
+    # ------------------------------------------------------------------ C06
+    ("C06-mvn-log-prob-without-log-determinant", "liesel/goose/iwls_utils.py",
+     "    return log_prob + adjustment\n", "    return log_prob\n"),
+    ("C06-proposal-precision-times-step-size", "liesel/goose/iwls.py",
+     "        fwd_log_prob = mvn_log_prob(flat_prop, mu_pos, chol_info_pos / step_size)\n",
+     "        fwd_log_prob = mvn_log_prob(flat_prop, mu_pos, chol_info_pos * step_size)\n"),
+    ("C06-backward-mean-uses-forward-score", "liesel/goose/iwls.py",
+     "        mu_prop = flat_prop + ((step_size**2) / 2) * solve(chol_info_prop, score_prop)\n",
+     "        mu_prop = flat_prop + ((step_size**2) / 2) * solve(chol_info_prop, score_pos)\n"),
+    ("C06-solve-second-substitution-not-transposed", "liesel/goose/iwls_utils.py",
+     "    return triangular_solve(chol_lhs, tmp, lower=True)\n", "    return triangular_solve(chol_lhs, tmp, left_side=True, lower=True)\n"),
+    ("C06-mh-kernel-negates-correction", "liesel/goose/mh_kernel.py",
+     "            proposal.log_correction,\n", "            -proposal.log_correction,\n"),
+    ("C06-iwls-correction-sign", "liesel/goose/iwls.py",
+     "        correction = bwd_log_prob - fwd_log_prob\n", "        correction = fwd_log_prob - bwd_log_prob\n"),
+    ("C06-iwls-drift-half-step-not-squared", "liesel/goose/iwls.py",
+     "        mu_pos = flat_pos + ((step_size**2) / 2) * solve(chol_info_pos, score_pos)\n",
+     "        mu_pos = flat_pos + (step_size / 2) * solve(chol_info_pos, score_pos)\n"),
+    ("C06-backward-information-at-current-point", "liesel/goose/iwls.py",
+     "        chol_info_prop = self._chol_info(model_state_prop, flat_hessian_fn)\n", "        chol_info_prop = chol_info_pos\n"),
 ]
 
 # Semantics-preserving changes: the property still holds, so the check must NOT raise an alarm.
